@@ -317,6 +317,12 @@ func (h *hist) addSub(name string, excl, exact bool, nLis int) *subRec {
 		}
 	}
 	s := &subRec{name: name, mode: mode, excl: excl, wk: wk}
+	if h.dead {
+		s.closed = true
+		s.m = newMirror(excl, wk, 0)
+		h.subs = append(h.subs, s)
+		return s
+	}
 	joining := false
 	for _, o := range h.subs {
 		if !o.closed && o.wk == wk {
@@ -336,6 +342,7 @@ func (h *hist) addSub(name string, excl, exact bool, nLis int) *subRec {
 	if p := guard(func() { sub, err = discov.NewSubscriber([]string{h.ep}, h.prefix, opts...) }); p != nil {
 		h.subs = append(h.subs, s)
 		s.closed = true
+		s.m = newMirror(excl, wk, 0)
 		h.panicViol(s, "NewSubscriber", p)
 		return s
 	}
@@ -383,6 +390,12 @@ func (h *hist) addResolver(name string) *subRec {
 		panic(err)
 	}
 	s := &subRec{name: name, mode: "resolver", wk: h.pwk, res: &resRec{lisRec: *newLis()}}
+	if h.dead {
+		s.closed = true
+		s.m = newMirror(false, h.pwk, 0)
+		h.subs = append(h.subs, s)
+		return s
+	}
 	joining := false
 	for _, o := range h.subs {
 		if !o.closed && o.wk == h.pwk {
@@ -401,6 +414,7 @@ func (h *hist) addResolver(name string) *subRec {
 	if p := guard(func() { rs, err = b.Build(gresolver.Target{URL: *u}, s.res, gresolver.BuildOptions{}) }); p != nil {
 		h.subs = append(h.subs, s)
 		s.closed = true
+		s.m = newMirror(false, h.pwk, 0)
 		h.panicViol(s, "resolver Build", p)
 		return s
 	}
@@ -611,7 +625,28 @@ func (h *hist) check(s *subRec) {
 	store := h.f.current(s.wk)
 	s.m.consume(h.f.transcript(s.fk, s.m.pos))
 	if err := s.m.selfCheck(store); err != nil {
-		panic("c13 harness: " + err.Error() + " after " + strings.Join(h.log, "; "))
+		// What the scripted etcd handed out (snapshots, replayed and live events) does not
+		// add up to the store: go-zero did not ask for what it missed (e.g. it re-watched
+		// "from now" after a failure). The model cannot follow; decide this one point with
+		// the order-independent part of the oracle and end the history.
+		h.c.Obs("feed_gaps", 1)
+		got, pv := s.values()
+		if pv != nil {
+			h.panicViol(s, "Values()", pv)
+			return
+		}
+		plain := &mirror{wk: s.wk, taintVal: s.m.taintVal}
+		var keep []mismatch
+		for _, mm := range plain.compare(store, got) {
+			if !s.excl || mm.kind == "stale-value" { // an exclusive view is a subset of the registered values
+				keep = append(keep, mm)
+			}
+		}
+		if len(keep) > 0 {
+			h.report(s, "Values()", got, store, keep)
+		}
+		h.dead = true
+		return
 	}
 	if s.large {
 		h.checkLarge(s, store)
